@@ -14,11 +14,8 @@ ID = 'C07'
 LEAN_MODULE = 'Proofs.C07'
 THEOREMS = ['Fsic.C07.' + n for n in [
     'fortran_numbering', 'fortran_numbers_distinct', 'fortran_index_rewrite', 'fortran_index_rewrite_cell',
-    'rewrite_expression_text', 'kind_safe_agree', 'kind_safe_assign_agree', 'evaluate_agree',
-    'full_agree_false_at_half', 'full_agree_false_at_tenth', 'fortran_loop_eq_python_loop',
-    'fortran_solveT_eq_python_partial', 'fortran_solveT_false_at_max_iter_zero',
-    'fortran_solveT_false_at_infeasible_period', 'fortran_check_rows_shifted',
-    'fortran_solveT_false_at_shifted_check', 'fortran_solve_eq_fold', 'error_codes_consistent']]
+    'kind_safe_agree', 'kind_safe_assign_agree', 'full_agree_false_at_half', 'full_agree_false_at_tenth',
+    'fortran_loop_eq_python_loop', 'fortran_solve_eq_fold', 'error_codes_consistent']]
 RULE = ('programs from an own grammar (1-6 equations, shared variables, parameters {a}, errors <e>, lags/leads up to 3, '
         'integer and decimal literals, + - * / ** unary minus parentheses exp log max min abs, long sums over dozens of '
         'variables that need continuation lines) plus a fixed list of designed programs (convergence exactly at tol, '
@@ -477,7 +474,8 @@ def model_payload(prog, symbols, n, data, call, check):
         walk(eq['rhs'])
     names = endo + exo + par + err
     return {'endo': endo, 'exo': exo, 'par': par, 'err': err, 'check': check,
-            'eqs': [{'lhs': eq['lhs'], 'rhs': eq['rhs']} for eq in prog['eqs']],
+            # evaluation order = order of the endogenous *symbols* (first appearance in the script), as in both back-ends
+            'eqs': [{'lhs': eq['lhs'], 'rhs': eq['rhs']} for eq in sorted(prog['eqs'], key=lambda q: endo.index(q['lhs']))],
             'lits': [{'text': k, 'r4': v[0], 'r8': v[1], 'm': v[2], 'e': v[3]} for k, v in sorted(lits.items())],
             'symlags': [int(s.lags) for s in sym], 'symleads': [int(s.leads) for s in sym],
             'n': n, 'vals': [data[x] for x in names], 'call': call}
@@ -710,7 +708,8 @@ def process_program(job):
                 out['violations'].append({'key': verdict[0], 'what': verdict[1], 'case': case})
             nontrivial = Fo['tag'] not in ('ValueError', 'KeyError') and verdict != ('skip', 'non-finite')
             out['cases'].append((json.dumps([prog['script'], data, call], sort_keys=True), nontrivial))
-            if model_ok and all_finite(Po) and all_finite(Fo):
+            in_span = call['call'] != 'solve_t' or -n <= call['t'] < n   # the models assume -n <= t < n for solve_t
+            if model_ok and in_span and all_finite(Po) and all_finite(Fo):
                 out['model'].append((model_payload(prog, symbols, n, data, call, check), obs_str(Fo), obs_str(Po), case, prog['unsafe']))
     except Exception as e:  # noqa: BLE001
         out['notes'].append('worker error: ' + ''.join(traceback.format_exception(type(e), e, e.__traceback__))[-1500:])
